@@ -82,6 +82,7 @@ const (
 	fHavingWith   = "having-after-with"
 	fUnselectedG  = "unselected-group-key"
 	fHavingExprAg = "having-agg-expr-arg"
+	fDistinctHid  = "distinct-with-hidden-having" // latent: only observable once unselected group keys are no longer delivered
 )
 
 // ---------------------------------------------------------------------------------------------
@@ -637,6 +638,9 @@ func genCase(t *rapid.T) Case {
 			}
 		}
 	}
+	if distinctWithHiddenHaving(c) && pbt.Open("C07", fDistinctHid) {
+		c.SelectG = true
+	}
 	if c.Having != nil && len(c.Order) > 0 && havingRunsIntoOrderBy(c) && pbt.Open("C07", fHavingOrder) {
 		c.Order = nil
 	}
@@ -649,6 +653,19 @@ func genCase(t *rapid.T) Case {
 		c.Limit = rapid.IntRange(1, maxGroups+1).Draw(t, "n")
 	}
 	return c
+}
+
+// distinctWithHiddenHaving: DISTINCT, g not selected (duplicates possible) and a HAVING operand that needs a hidden helper aggregate.
+func distinctWithHiddenHaving(c Case) bool {
+	if !c.Distinct || c.Having == nil || c.Source != "tumbling" || c.SelectG {
+		return false
+	}
+	for _, a := range c.Having.Atoms {
+		if a.Alias == "" {
+			return true
+		}
+	}
+	return false
 }
 
 // havingRunsIntoOrderBy: no WITH clause separates HAVING from ORDER BY in the statement text.
@@ -1515,6 +1532,9 @@ func features(c Case) []string {
 	}
 	if c.Source == "tumbling" && !c.SelectG {
 		set[fUnselectedG] = true
+	}
+	if distinctWithHiddenHaving(c) {
+		set[fDistinctHid] = true
 	}
 	var out []string
 	for f := range set {
